@@ -298,7 +298,10 @@ impl Prop for AddSub {
                         }
                     }
                     Op::DtTime { tns, sub, assign } => {
-                        let t = mk_time(*tns);
+                        // an offset on the Time operand changes how that time of day is read, not which
+                        // time of day it is (C10; equal Times, C08): the amount stays the same
+                        let toff = [0i32, 0, 3_600, -18_000, 86_399, -1, 9_000, -45_296][((*tns >> 7) ^ (c.a.day as u64)) as usize % 8];
+                        let t = if toff == 0 { mk_time(*tns) } else { mk_time(*tns).set_offset(Offset::Fixed(toff)) };
                         match (*sub, *assign) {
                             (false, false) => d0 + t,
                             (true, false) => d0 - t,
